@@ -22,7 +22,7 @@ func init() {
 			"R15-mathmap — each math library entry named after a libm function calls exactly that math.* function with CheckNumber(1)[, CheckNumber(2)] in order and pushes its result(s) in order; deg/rad use the 180/pi factors; max/min compare in the right direction; math.mod and the % operator share luaModulo; R14-readonly shared ('a string is never modified in place'). " +
 			"R15-flags — defaultFormat, which rebuilds each string.format directive for Go's fmt, probes fmt.State for all five printf flags (+ - # 0 and blank). R15-positions — string.byte's end defaults to its start, and every position is clamped to the string by luaIndex2StringIndex whatever its kind; R16-errsense shared — a number obtained from parseNumber is used only where its error was found nil (string.format converting numeric strings); R10-retcount shared. NOT decided: index clamping in sub/byte/find/match, format rendering of flags/width/precision, random's range — arithmetic on arguments.",
 		Trusted: []string{"Go's math package returns the IEEE result of each function"},
-		Rules:   []func(*Ctx){ruleBytes, ruleMathMap, ruleReadonly, ruleFormatFlags, ruleStrDefaults, ruleErrSense, ruleRetCount, ruleRelPos, ruleArgTypes, ruleCharRange, ruleFormatAsPrintf, ruleDebugMetatableAndHuge, ruleSurplusArgs},
+		Rules:   []func(*Ctx){ruleBytes, ruleMathMap, ruleReadonly, ruleFormatFlags, ruleStrDefaults, ruleErrSense, ruleRetCount, ruleRelPos, ruleArgTypes, ruleCharRange, ruleFormatAsPrintf, ruleDebugMetatableAndHuge, ruleSurplusArgs, ruleSmallArithmeticGuards, ruleSearchStartClamped, ruleNumeralTextUnfiltered},
 	})
 }
 
@@ -260,6 +260,12 @@ func ruleMathMap(c *Ctx) {
 				switch n {
 				case "IsInf", "IsNaN", "Copysign", "Signbit", "Inf", "NaN":
 					return // classification of special values around the libm call, not another computation
+				case "Round", "Abs", "Pow":
+					if name == "log10" {
+						// the exactness correction for powers of ten (Go's Log10 is log2(x)·(ln2/ln10) and gives
+						// 2.9999999999999996 for 1000): the nearest integer is verified with Pow before it is used
+						return
+					}
 				}
 				ncalls++
 				if n == libm[name] {
@@ -298,7 +304,18 @@ func ruleMathMap(c *Ctx) {
 		if len(pushes) != wantRes {
 			okRes = false
 		} else if wantRes == 1 {
-			okRes = stripConv(stripMI(pushes[0].Call.Args[1])) == ssa.Value(call)
+			v := stripConv(stripMI(pushes[0].Call.Args[1]))
+			okRes = v == ssa.Value(call)
+			// …or a phi one of whose edges is the result and whose other edges are derived from it (the
+			// exactness correction of log10: the rounded result where that is verified to be exact)
+			if ph, isPhi := v.(*ssa.Phi); isPhi && !okRes {
+				okRes = true
+				for _, e := range ph.Edges {
+					if !dependsOnValue(stripConv(e), call, 0) {
+						okRes = false
+					}
+				}
+			}
 		} else {
 			for i, pu := range pushes {
 				v := stripConv(stripMI(pu.Call.Args[1]))
@@ -331,28 +348,53 @@ func ruleMathMap(c *Ctx) {
 			continue
 		}
 		okc := false
+		// the pushed value is x·k for a constant k, however the expression is spelled (x*180/pi,
+		// x/(pi/180), x*(180/pi)): k is computed by folding the multiplications and divisions
+		var factor func(v ssa.Value, d int) (float64, bool)
+		factor = func(v ssa.Value, d int) (float64, bool) {
+			v = stripConv(stripMI(v))
+			if d > 6 {
+				return 0, false
+			}
+			if vkey(v) == "call (*LState).CheckNumber(p:L,c:1)" {
+				return 1, true
+			}
+			b, ok := v.(*ssa.BinOp)
+			if !ok {
+				return 0, false
+			}
+			if kx, okx := factor(b.X, d+1); okx {
+				if f, isK := constFloat(b.Y); isK {
+					switch b.Op {
+					case token.MUL:
+						return kx * f, true
+					case token.QUO:
+						return kx / f, true
+					}
+				}
+				return 0, false
+			}
+			if ky, oky := factor(b.Y, d+1); oky && b.Op == token.MUL {
+				if f, isK := constFloat(b.X); isK {
+					return f * ky, true
+				}
+			}
+			return 0, false
+		}
 		for _, pu := range callsTo(fn, push) {
-			div, ok := stripConv(stripMI(pu.Call.Args[1])).(*ssa.BinOp)
-			if !ok || div.Op != token.QUO {
+			k, ok := factor(pu.Call.Args[1], 0)
+			if !ok {
 				continue
 			}
-			mul, ok := stripConv(div.X).(*ssa.BinOp)
-			if !ok || mul.Op != token.MUL || vkey(mul.X) != "call (*LState).CheckNumber(p:L,c:1)" {
-				continue
+			want := 180 / 3.141592653589793
+			if name == "rad" {
+				want = 3.141592653589793 / 180
 			}
-			f1, ok1 := constFloat(mul.Y)
-			f2, ok2 := constFloat(div.Y)
-			if !ok1 || !ok2 {
-				continue
-			}
-			isPi := func(f float64) bool { return f > 3.14159265358979 && f < 3.14159265358980 }
-			if name == "deg" {
-				okc = f1 == 180 && isPi(f2)
-			} else {
-				okc = isPi(f1) && f2 == 180
+			if d := k/want - 1; d < 1e-12 && d > -1e-12 {
+				okc = true
 			}
 		}
-		c.check(okc, R, "entry:"+name, p.pos(fn.Pos()), "x*180/pi resp. x*pi/180", "math."+name+" does not compute "+map[string]string{"deg": "x*180/pi", "rad": "x*pi/180"}[name])
+		c.check(okc, R, "entry:"+name, p.pos(fn.Pos()), "x·(180/pi) resp. x·(pi/180), in any spelling", "math."+name+" does not compute "+map[string]string{"deg": "x·180/pi", "rad": "x·pi/180"}[name])
 	}
 	// max / min direction
 	for name, op := range map[string]token.Token{"max": token.GTR, "min": token.LSS} {
